@@ -10,13 +10,16 @@ package main
 import (
 	"errors"
 	"fmt"
+	"runtime"
 	"sync"
+	"sync/atomic"
 	"time"
 
 	"verifharness/internal/hx"
 	"verifharness/internal/imapx"
 	"verifharness/internal/prng"
 
+	"github.com/acquirecloud/golibs/container/iterable"
 	"github.com/acquirecloud/golibs/container/lru"
 )
 
@@ -473,9 +476,173 @@ func capClass(c int) string {
 	return "17..64"
 }
 
+// ---- Kind "xlru": lru.ExpirableCache, generated from (GSeed, GLen): GetOrCreate over cap+3 keys with create
+// functions that return items that have expired already / expire in an hour and that, one time in three, call
+// GetOrCreate on `cap` OTHER keys before they return (re-entrant: the cache lock is not held inside the create
+// function; such calls push the key under creation out of a full cache), Remove, Clear.  Judged by the bound of the
+// property alone: at every boundary of a top-level call Len() <= capacity and the inner list has <= capacity+1 nodes.
+func runXLru(c Case, s *hx.Sink) string {
+	type item = lru.ExpirableItem[int64]
+	g := prng.New(c.GSeed, "C11xlru", c.ID)
+	var cache *lru.ExpirableCache[int64, item]
+	depth := 0
+	next := int64(0)
+	nested := 0
+	create := func(k int64) (item, error) {
+		if depth == 0 && g.Chance(1, 3) {
+			depth++
+			for j := 0; j < c.Cap; j++ {
+				nested++
+				cache.GetOrCreate(k + 100 + int64(j))
+			}
+			depth--
+		}
+		if g.Chance(1, 8) {
+			return item{}, errCreate
+		}
+		next++
+		exp := time.Now().Add(time.Hour)
+		if g.Chance(1, 2) {
+			exp = time.Now().Add(-time.Hour)
+		}
+		return lru.NewCacheItem(next, exp), nil
+	}
+	var err error
+	cache, err = lru.NewExpirableCache[int64, item](c.Cap, create, func(int64, item) {})
+	if err != nil {
+		s.DirectViolation(c.ID, "NewExpirableCache failed", err.Error())
+		return fmt.Sprintf("LruCase %s %s []", hx.N(c.ID), hx.Nat(c.Cap))
+	}
+	done := make(chan string, 1)
+	go func() {
+		defer func() {
+			if p := recover(); p != nil {
+				done <- fmt.Sprint("panic: ", p)
+			}
+		}()
+		for i := 0; i < c.GLen; i++ {
+			k := int64(g.Intn(c.Cap + 3))
+			switch x := g.Intn(20); {
+			case x == 0:
+				cache.Clear()
+			case x < 3:
+				cache.Remove(k)
+			default:
+				cache.GetOrCreate(k)
+			}
+			nodes, del, ref, ok := cache.VerifWalk()
+			if n, _ := cache.VerifC09Counts(); n > c.Cap || nodes > c.Cap+1 || del != 0 || ref != 0 || !ok {
+				done <- fmt.Sprintf("after call %d: Len()=%d, list nodes=%d (capacity %d), pinned=%d, refs=%d, consistent=%t", i, n, nodes, c.Cap, del, ref, ok)
+				return
+			}
+		}
+		done <- ""
+	}()
+	select {
+	case what := <-done:
+		if what != "" {
+			s.DirectViolation(c.ID, "expirable cache holds more than its capacity (or pinned / inconsistent list nodes) at an operation boundary", map[string]any{"detail": what, "cap": c.Cap})
+		}
+	case <-time.After(60 * time.Second):
+		s.DirectViolation(c.ID, "an expirable-cache history did not finish: some call does not return", map[string]any{"cap": c.Cap})
+	}
+	s.Extra["xlru_calls"] = toInt(s.Extra["xlru_calls"]) + c.GLen
+	s.Extra["xlru_calls_reentrant"] = toInt(s.Extra["xlru_calls_reentrant"]) + nested
+	return fmt.Sprintf("LruCase %s %s []", hx.N(c.ID), hx.Nat(c.Cap))
+}
+
+// ---- Kind "gc": what the map / the cache keeps REACHABLE, measured by the garbage collector.  Keys and values are
+// pointers to heap objects with finalizers. GLen entries are added (Add / GetOrCreate), a third of them while an
+// iterator is open (map), then all but Rep of them are removed (Remove / eviction / Clear), every iterator is closed,
+// the harness drops its own references, and the collector runs until the count of finalized objects stops changing
+// (sync.Pool gives up its content after two cycles). Every removed entry's key and value must have been collected,
+// up to a small constant (the trailing sentinel of the list is a recycled node and may still carry one old key).
+type gcObj struct {
+	id  int
+	pad [48]byte
+}
+
+func runGC(c Case, s *hx.Sink) string {
+	var finK, finV int64
+	mk := func(id int, ctr *int64) *gcObj {
+		o := &gcObj{id: id}
+		runtime.SetFinalizer(o, func(*gcObj) { atomic.AddInt64(ctr, 1) })
+		return o
+	}
+	n, keep := c.GLen, c.Rep
+	settle := func(want int64) {
+		for i := 0; i < 12; i++ {
+			runtime.GC()
+			time.Sleep(2 * time.Millisecond)
+			if atomic.LoadInt64(&finK) >= want && atomic.LoadInt64(&finV) >= want {
+				return
+			}
+		}
+	}
+	var live []*gcObj // keys of the entries that stay
+	what := "map"
+	if c.Cap == 0 {
+		m := iterable.NewMap[*gcObj, *gcObj]()
+		var keys []*gcObj
+		for i := 0; i < n; i++ {
+			k := mk(i, &finK)
+			keys = append(keys, k)
+			m.Add(k, mk(i, &finV))
+		}
+		it := m.Iterator()
+		for i := 0; i < n/3; i++ {
+			it.Next()
+		}
+		for i := 0; i < n-keep; i++ {
+			m.Remove(keys[i])
+		}
+		it.Close()
+		live = append(live, keys[n-keep:]...)
+		keys = nil
+		settle(int64(n - keep))
+		runtime.KeepAlive(m)
+	} else {
+		what = "cache"
+		cache, err := lru.NewCache[int, *gcObj](c.Cap, func(k int) (*gcObj, error) { return mk(k, &finV), nil }, func(int, *gcObj) {})
+		if err != nil {
+			s.DirectViolation(c.ID, "NewCache failed", err.Error())
+			return fmt.Sprintf("LruCase %s %s []", hx.N(c.ID), hx.Nat(c.Cap))
+		}
+		for i := 0; i < n; i++ {
+			cache.GetOrCreate(i)
+			if i%7 == 3 {
+				cache.Remove(i - 1)
+			}
+		}
+		if c.Rep == 0 {
+			cache.Clear()
+		}
+		keep, _ = cache.VerifC09Counts()
+		atomic.StoreInt64(&finK, int64(n)) // int keys: only the values are tracked
+		settle(int64(n - keep))
+		runtime.KeepAlive(cache)
+	}
+	lostK, lostV := int64(n-keep)-atomic.LoadInt64(&finK), int64(n-keep)-atomic.LoadInt64(&finV)
+	if what == "cache" {
+		lostK = 0
+	}
+	s.Count("gc:" + what)
+	if lostK > 2 || lostV > 2 {
+		s.DirectViolation(c.ID, "removed entries are still reachable after every iterator was closed (not collected by the garbage collector)",
+			map[string]any{"what": what, "entries_added": n, "entries_live": keep, "removed_keys_not_collected": lostK, "removed_values_not_collected": lostV, "cap": c.Cap})
+	}
+	runtime.KeepAlive(live)
+	return fmt.Sprintf("LruCase %s %s []", hx.N(c.ID), hx.Nat(c.Cap))
+}
+
 func runCase(c Case, s *hx.Sink) string {
-	if c.Kind == "lru" {
+	switch c.Kind {
+	case "lru":
 		return runLru(c, s)
+	case "xlru":
+		return runXLru(c, s)
+	case "gc":
+		return runGC(c, s)
 	}
 	return runMap(c, s)
 }
@@ -524,6 +691,19 @@ func main() {
 		}
 		emit(Case{Kind: "lru", Cap: cap, GSeed: fl.Seed + uint64(cap)*1000003, GLen: n}, "lru-long")
 		emit(Case{Kind: "lru", Cap: cap, GSeed: fl.Seed + uint64(cap)*1000003, GLen: n / 10, GNest: true}, "lru-long-reentrant-concurrent")
+	}
+	// 0b. lru.ExpirableCache with re-entrant create functions (bound only), and reachability measured by the
+	// garbage collector (map: Cap 0; cache: Cap > 0; Rep = entries that stay / 0 = Clear at the end)
+	for i, cap := range []int{1, 2, 3, 5, 8} {
+		n := 600
+		if thorough {
+			n = 20000
+		}
+		emit(Case{Kind: "xlru", Cap: cap, GSeed: fl.Seed*31 + uint64(i), GLen: n}, "xlru-expirable-reentrant")
+	}
+	for i, n := range []int{40, 400, 3000} {
+		emit(Case{Kind: "gc", Cap: 0, GLen: n, Rep: i}, "gc-map")
+		emit(Case{Kind: "gc", Cap: 3 + 5*i, GLen: n, Rep: i % 2}, "gc-cache")
 	}
 	// 1. map histories: exhaustive small + random, ending with every iterator closed
 	d := 5
